@@ -840,8 +840,14 @@ func (e *Exec) applyModifies(con *Contract, csc *Scope, st *State) {
 					continue
 				}
 				if l.ref == "" {
+					before := c.hget(st.heap, l.comp)
 					st.heap = c.hhavocComp(st.heap, l.comp)
 					whole = append(whole, l.comp)
+					if l.onlyRoot != "" && con.Kind == "extern" && strings.HasPrefix(string(c.compSortOf(l.comp)), "(Array Ref ") {
+						// assumed contract of a dependency: elems(s) means the cells of s's backing array, nothing else
+						after := c.hget(st.heap, l.comp)
+						c.fact(fmt.Sprintf("(forall ((r!m Ref)) (! (=> (not (= (root r!m) %s)) (= (select %s r!m) (select %s r!m))) :pattern ((select %s r!m))))", l.onlyRoot, after, before, after))
+					}
 				} else {
 					_, es := arraySorts(string(c.compSortOf(l.comp)))
 					fv := c.fresh("mod", Sort(es))
@@ -866,6 +872,7 @@ func (e *Exec) applyModifies(con *Contract, csc *Scope, st *State) {
 type modLoc struct {
 	comp string
 	ref  string // "" = whole component
+	onlyRoot string // whole-component havoc, but (extern contracts only) cells outside the allocation of this array keep their value
 }
 
 // resolveModifies turns a modifies item into component locations.
@@ -893,7 +900,7 @@ func (sc *Scope) resolveModifies(item string) []modLoc {
 		}
 		var out []modLoc
 		for n := range comps {
-			out = append(out, modLoc{comp: n})
+			out = append(out, modLoc{comp: n, onlyRoot: fmt.Sprintf("(root (sl_arr %s))", v.T)})
 		}
 		sort.Slice(out, func(i, j int) bool { return out[i].comp < out[j].comp })
 		return out
